@@ -227,7 +227,8 @@ theorem covers_entry {oc : DSymData} (hs : ValidSym oc) (hsz : 1 ≤ oc.size) (h
       (stab0 hv).index = (viewTab v).size ∧ (viewTab v).size ≤ max k 1 := by
   have hrun : ∃ fg, FG.fundamentalGroup oc = .ok fg ∧
       Covers.covers oc k (nodeFuel fg.nrGenerators k) = .ok cs := by
-    unfold covers at h
+    unfold covers Covers.coversAll at h
+    unfold Covers.covers
     cases hfg : FG.fundamentalGroup oc with
     | ok fg => rw [hfg] at h; exact ⟨fg, rfl, h⟩
     | err => rw [hfg] at h; cases h
